@@ -240,11 +240,12 @@ theorem C01_spelling_tokens (lead : Lead) (steps : List StepSp) (hp : PlainSteps
     tokenize (renderSp lead steps) = toksOf steps :=
   tokenize_renderSp lead steps hp
 
-/-- the tokens of a spelling spell the position Python indexing reaches -/
+/-- the tokens of a spelling spell the position Python indexing reaches (`posOf`: the steps with
+every index normalised) -/
 theorem C01_spelling_spells (steps : List StepSp) (v c : Val) (hp : PlainSteps steps)
-    (hget : stepsGet v steps = some c) : ∃ p, Spells (toksOf steps) v p c ∧ getAt v p = some c := by
-  obtain ⟨p, hs⟩ := spells_steps steps v c hp hget
-  exact ⟨p, hs, hs.getAt⟩
+    (hget : stepsGet v steps = some c) :
+    Spells (toksOf steps) v (posOf v steps) c ∧ getAt v (posOf v steps) = some c :=
+  ⟨spells_steps steps v c hp hget, (spells_steps steps v c hp hget).getAt⟩
 
 /-- **C01 (equivalent spellings, string level, dict root).**  Whatever spelling of a path is used
 (prefix none, `/` or `//`; `][` or `]/[`, `a[i]` or `a/[i]`; each index as `i`, `-k`, `last()`,
@@ -266,6 +267,50 @@ theorem C01_spellings_string_list (cls : Cls) (xs : List Val) (lead : Lead) (ste
     get fuel (.list cls xs) (renderSp lead steps) d = (.list cls xs, .ok c) :=
   ⟨getCore_spelling_list fuel cls xs lead steps c _ true true hp hne hget hf,
    getCore_spelling_list fuel cls xs lead steps c _ false true hp hne hget hf⟩
+
+/-- **C01 (`first`, any spelling).**  `first` returns the same element, except that a one-element
+list is unwrapped (that is what `first` is for); both roots. -/
+theorem C01_spellings_first (t : Val) (hroot : (∃ cls kvs, t = .dict cls kvs) ∨ (∃ cls xs, t = .list cls xs))
+    (lead : Lead) (steps : List StepSp) (c d : Val) (hp : PlainSteps steps) (hne : steps ≠ [])
+    (hget : stepsGet t steps = some c) (fuel : Nat) (hf : fuel ≥ 2 * steps.length) :
+    ((∀ cl x, c ≠ .list cl [x]) → first fuel t (renderSp lead steps) d = (t, .ok c)) ∧
+    (∀ cl x, c = .list cl [x] → first fuel t (renderSp lead steps) d = (t, .ok x)) := by
+  have hcore : getCore fuel t (renderSp lead steps) d false false = (t, .ok c) := by
+    rcases hroot with ⟨cls, kvs, rfl⟩ | ⟨cls, xs, rfl⟩
+    · exact getCore_spelling_dict fuel cls kvs lead steps c d false false hp hne hget hf
+    · exact getCore_spelling_list fuel cls xs lead steps c d false false hp hne hget hf
+  refine ⟨fun hc => first_of_getCore hcore hc, ?_⟩
+  intro cl x hcx
+  subst hcx
+  exact first_of_getCore_single hcore
+
+/-- **C01 (headline, `first`).**  Every enumerated pair of a dict-rooted tree with plain keys also
+resolves through `first` (a leaf is a scalar, so nothing is unwrapped). -/
+theorem C01_resolves_first (cls : Cls) (kvs : List (Str × Val)) (ht : PlainTree (.dict cls kvs))
+    (xp : Str) (v d : Val) (h : (xp, v) ∈ xpathEnum (.dict cls kvs)) :
+    ∃ n, ∀ fuel ≥ n, first fuel (.dict cls kvs) xp d = (.dict cls kvs, .ok v) := by
+  rw [C01_enum_is_leaves] at h
+  simp only [List.mem_map] at h
+  obtain ⟨⟨p, c⟩, hm, heq⟩ := h
+  simp only [Prod.mk.injEq] at heq
+  obtain ⟨rfl, rfl⟩ := heq
+  obtain ⟨hg, hp0, hsc⟩ := leaves_sound _ ht p c hm
+  have hpp : PlainPos p ∧ p ≠ [] := by
+    refine ⟨hp0, ?_⟩
+    simp only [leaves] at hm
+    obtain ⟨k, q, rfl, _⟩ := leavesKvs_sound kvs ht p c hm
+    simp
+  refine ⟨2 * p.length, fun fuel hf => ?_⟩
+  have hs := spells_merged p (.dict cls kvs) c hpp.1 hg
+  have hlen := mergedToks_length_le p
+  have htok : tokenize (slash ++ renderPos p) = mergedToks p := tokenize_render p hpp.1
+  have hcore : getCore fuel (.dict cls kvs) (slash ++ renderPos p) d false false = (.dict cls kvs, .ok c) :=
+    getCore_dict_path fuel cls kvs _ d false false p c (by simp [slash, startsWith]) (by simp [hasPathChar, slash])
+      (by rw [htok]; exact hs) (by rw [htok]; exact mergedToks_ne_nil p hpp.2) (by rw [htok]; omega)
+  refine first_of_getCore hcore ?_
+  intro cl x hcx
+  subst hcx
+  simp [Val.isScalar] at hsc
 
 /-! Non-vacuity: a concrete tree with nested lists, a list in a list, empty containers. -/
 def exTree : Val :=
